@@ -51,6 +51,31 @@ def no_autopack():
     return _C()
 
 
+def split_stream(store, b, fmt):
+    """Insert two revisions from a source into b's repository in two write groups: first the file
+    texts and CHK pages, then inventories and revisions.  Returns the pack names of the first group."""
+    src = mw.make_branch(store.transport("src"), fmt)
+    with no_autopack():
+        chain(src, b"s", 2, start=100)
+    source, target = src.repository, b.repository
+    with source.lock_read(), target.lock_write():
+        names = []
+        for group in (("chk_bytes", "texts"), ("inventories", "revisions")):
+            target.start_write_group()
+            try:
+                for vf in group:
+                    svf = getattr(source, vf, None)
+                    if svf is None:
+                        continue
+                    getattr(target, vf).insert_record_stream(
+                        svf.get_record_stream(sorted(svf.keys()), "unordered", True))
+                names.append(target.commit_write_group())
+            except BaseException:
+                target.abort_write_group()
+                raise
+    return list(names[0])
+
+
 def build_scenarios(thorough):
     """Run every scenario fault-free; returns list of dicts with s0, ops, old, new."""
     from breezy.branch import Branch
@@ -61,8 +86,17 @@ def build_scenarios(thorough):
             scns.append(("commit-into-%d-packs" % j, j, "commit"))
         scns += [("autopack-10th-commit", 9, "commit"), ("fetch-2-revisions", 2, "fetch"),
                  ("pack", 3, "pack"), ("pack-clean-obsolete", 3, "packclean"),
-                 ("pack-after-autopack-leftovers", 10, "packclean")]
+                 ("pack-after-autopack-leftovers", 10, "packclean"),
+                 # a partial repack as fetch issues it (pack(hint=names returned by commit_write_group)):
+                 # of the newest pack of three, and of a pack holding only the texts (+ CHK pages) of
+                 # revisions whose inventories/revisions arrived in a later write group (a stream split
+                 # over two write groups, as suspend/resume of an incomplete stream produces)
+                 ("pack-hint-newest", 3, "packhint"), ("pack-hint-split-stream", 0, "packhint-split")]
         for name, npre, what in scns:
+            if what == "packhint-split" and fmt != "2a":
+                # (on pack-0.92 repacking a texts-only pack reproduces the same content-named pack and
+                # pack() refuses cleanly with "Pack already exists" before writing anything)
+                continue
             store = new_store()
             b = mw.make_branch(store.transport("b"), fmt)
             if npre:
@@ -78,6 +112,17 @@ def build_scenarios(thorough):
                 with src.lock_write():
                     src.generate_revision_history(b.last_revision())
                 src_tip = chain(src, b"s", 2, start=100)
+            hint = None
+            if what == "packhint":
+                with b.repository.lock_read():
+                    pc = b.repository._pack_collection
+                    pc.ensure_loaded()
+                    hint = [pk.name for pk in pc.all_packs()
+                            if any(n[1] == (b"r2",) for n in pk.revision_index.iter_all_entries())]
+                if len(hint) != 1:
+                    raise HarnessError("cannot find the newest pack: %r" % (hint,))
+            if what == "packhint-split":
+                hint = split_stream(store, b, fmt)
             s0 = store.walk()
             b = Branch.open(store.url + "b")
             with b.repository.lock_read():
@@ -90,6 +135,8 @@ def build_scenarios(thorough):
                     t = Branch.open(store.url + "b")
                     s = Branch.open(store.url + "src")
                     t.repository.fetch(s.repository, revision_id=src_tip)
+            elif what in ("packhint", "packhint-split"):
+                fn = lambda: Branch.open(store.url + "b").repository.pack(hint=list(hint))  # noqa
             elif what == "pack":
                 fn = lambda: Branch.open(store.url + "b").repository.pack()  # noqa
             else:
@@ -129,6 +176,9 @@ def observe(store, scn, acc, label, depth=0):
     det = {"scenario": where, "crash_after_mutating_ops": label[0], "torn_bytes": label[1],
            "next_op": scn["muts"][label[0]].brief() if label[0] < len(scn["muts"]) else None}
     try:
+        # the recovering process is a new one: no CHK page survives in a process-wide cache
+        from bzrformats import chk_map
+        chk_map.clear_cache()
         r = Repository.open(store.url + "b")
         with r.lock_read():
             vis = frozenset(r.all_revision_ids())
